@@ -1299,6 +1299,8 @@ def distinct_steps(p, names, ctx, grid=(8, 6, 8), cap=40):
             g1, g2, g3 = min(grid[0], 4), 6, 4
         else:
             g1, g2, g3 = grid
+            # k1 selects the site: cover every statement (and a good part of the expression sites)
+            g1 = max(g1, min(len(st_), 40))
         seen = set()
         for k1 in range(g1):
             for k2 in range(g2):
